@@ -32,7 +32,7 @@ REGISTRY = dict(
           "Not verified: numpy fancy indexing and negative indexing (pos - 1 at pos = 0), np.arange, VecEnv.env_method, pickle (covered by the correspondence only); "
           "float evaluation of int((1 - 1/(n+1)) * B) is compared with the integer law exhaustively for n <= 64, B <= 2048 on every run. "
           "Lost data (over-invalidation: episodes whose length is a multiple of the capacity, the head of episodes longer than the ring) is not forbidden by the property and is not reported. "
-          "BaseBuffer.reset() on a HER buffer is outside the property's quantifier and is not exercised. "
+          "No finding. BaseBuffer.reset() on a HER buffer is outside the property's quantifier (lead's ruling): generators and corpus never call it; the observation is described in docs/C16.md. "
           "All C16 theorems are closed under the global context (no axioms)."),
     technique="machine-checked proof in Coq (ring-segment invariant by induction over the history) + regenerated-fragment interface lemmas + differential correspondence with exhaustive goal enumeration",
 )
@@ -889,7 +889,7 @@ def main():
     chk.assumptions += [
         "numpy fancy / negative indexing, np.arange, np.flatnonzero / unravel_index, VecEnv.env_method and pickle are tied to the model by this correspondence only",
         "np.random.choice / randint are replaced in the harness process to enumerate the ranges the code itself passes; the distribution of the real generator is not examined",
-        "lost data (over-invalidation) is not a violation of the property and is not reported; BaseBuffer.reset() on a HER buffer is not exercised",
+        "lost data (over-invalidation) is not a violation of the property and is not reported; BaseBuffer.reset() on a HER buffer is outside the quantifier and never called by the generators or the corpus",
     ]
     linecov.finish(_cov, chk)
     return chk.finish()
